@@ -1396,6 +1396,15 @@ pos("C14", "space-readfrom-window-exceeds-reservation", "the socket reader reads
 pos("C14", "space-read-advances-by-request", "Read advances the consumer by the size of the caller's buffer instead of by the bytes copied",
     [(BUF, "				n = copy(p, bf.buf[cindex:])\n			}\n\n			bf.cseq.set(cpos + int64(n))", "				n = copy(p, bf.buf[cindex:])\n			}\n\n			bf.cseq.set(cpos + pl)")],
     ["C14/B11-ring-space-accounting/Read:store(cseq)#2:never-passes-the-producer"])
+pos("C14", "space-read-first-branch-advances-by-request", "the first branch of Read advances the consumer by len(p) although copy may have stopped at the end of the ring",
+    [(BUF, "			n := copy(p, bf.buf[cindex:])\n\n			bf.cseq.set(cpos + int64(n))", "			n := copy(p, bf.buf[cindex:])\n\n			bf.cseq.set(cpos + pl)")],
+    ["C14/B11-ring-space-accounting/Read:return#1:advances-by-the-count-reported"])
+pos("C14", "space-readcommit-reports-other-count", "ReadCommit reports the request although it advanced by one byte less",
+    [(BUF, "	if cpos+int64(n) <= ppos {\n		bf.cseq.set(cpos + int64(n))", "	if cpos+int64(n) <= ppos {\n		bf.cseq.set(cpos + int64(n) - 1)")],
+    ["C14/B11-ring-space-accounting/ReadCommit:return#1:advances-by-the-count-reported"])
+neg("C14", "neg-space-consumed-helper", "store of the consumer cursor and the wake-up of the producer in a helper consumed(pos)",
+    [(BUF, "			n := copy(p, bf.buf[cindex:])\n\n			bf.cseq.set(cpos + int64(n))\n			bf.pcond.L.Lock()\n			bf.pcond.Broadcast()\n			bf.pcond.L.Unlock()\n", "			n := copy(p, bf.buf[cindex:])\n\n			bf.consumed(cpos + int64(n))\n"),
+     (BUF, "func (bf *buffer) isDone() bool {", "func (bf *buffer) consumed(pos int64) {\n	bf.cseq.set(pos)\n	bf.pcond.L.Lock()\n	bf.pcond.Broadcast()\n	bf.pcond.L.Unlock()\n}\n\nfunc (bf *buffer) isDone() bool {")])
 neg("C14", "neg-space-wait-rewritten", "space wait with the comparison written the other way round and the free space in a local",
     [(BUF, "	if wrap > gate || gate > ppos {", "	if gate < wrap || ppos < gate {"),
      (BUF, "		for cpos = bf.cseq.get(); wrap > cpos; cpos = bf.cseq.get() {", "		for cpos = bf.cseq.get(); cpos < wrap; cpos = bf.cseq.get() {")])
